@@ -98,7 +98,8 @@ CLAIMED = {
         "restored in every serialised form. Tie to code: random operation sequences on real "
         "simulations (in memory and file based, copies via copy/dict/h5/npz/json), every returned "
         "value and passive observable identified BIT FOR BIT with reference values of fresh "
-        "simulations per model version and compared with the model after every step.",
+        "simulations per model version and compared with the model after every step; worlds with "
+        "the model grid and with a given computational grid; model replaced or edited in place.",
    design='§4 C12',
    note=TB % 'c12' + "Modelled not verified: the numerics of a solve (a value tagged with a model "
         "version); determinism of identical computations (monitored). gridding='same' only "
@@ -341,10 +342,19 @@ CLAIMED = {
         "every n (induction), given non-zero pivots. Tie to code: the kernels' Python source run on "
         "exact Gaussian rationals equals the model entry by entry (the model builds each block "
         "system from the operator, not from the kernels' coefficients); core.solve vs model; "
-        "compiled kernels vs source; property oracle on the real code.",
+        "compiled kernels vs source; property oracle on the real code. Beyond the smoothers: the "
+        "complete multigrid call is modelled (Cycle.lean: interpreter of the C05 event trace over "
+        "the operator models of C02-C04) and proved to return an exact solution unchanged for "
+        "EVERY trace (runTrace_fixed / mgRun_fixed); the precondition 'block systems non-singular' "
+        "is proved for physical models over C (allInj_phys: real widths, zeta >= 0, eta in an open "
+        "half-plane; closed under coarsening), with uniqueness of the discrete solution "
+        "(solution_unique_phys). Tie: solver.multigrid (float64) vs the exact model on dyadic "
+        "inputs (V/W/F, all patterns), exact solutions returned unchanged; Phys monitored on "
+        "VolumeModel and solver.restriction output.",
    design='§4 C03',
    note=TB % 'c03' + "Hypothesis of fixed-point/linearity theorems: block systems non-singular "
-        "(BlockInj) resp. non-zero pivots - the documented precondition; witnessed per executed case "
+        "(BlockInj; PROVED for physical models, allInj_phys) resp. non-zero pivots and success "
+        "flags of the linearity theorems - witnessed per executed case "
         "by the model's success flag. Not covered: rounding-error growth without pivoting.",
    technique='Lean 4: block-relaxation refinement + LDL^T induction; exact-rational correspondence with kernel sources'),
  'C04': dict(
@@ -377,12 +387,32 @@ CLAIMED = {
    note=TB % 'c05' + "Modelled not verified: numerics enter control flow only through "
         "_terminate (number of cycles is an oracle); kernels are no-ops for large-shape traces.",
    technique='Lean 4 theorems by induction over levels/fuel + event-trace correspondence with the real solver'),
+ 'C06': dict(
+   text="PARTIAL. Proved (Lean 4, Props/C06.lean on top of Cycle.lean / Coercive.lean; all grids, "
+        "all traces): the complete multigrid call - the interpreter of the C05 event trace over the "
+        "operator models of C02-C04, tied to solver.multigrid by the exact cycle correspondence - "
+        "is a consistent LINEAR stationary iteration: exact solutions are fixed points "
+        "(mgRun_fixed_phys), the call is additive in (source, start field) for every trace "
+        "(runTrace_add), hence the error after a cycle depends on the error before, the grid, the "
+        "model and the cycle parameters only, not on the source (mg_error_propagation); block "
+        "systems are non-singular and the discrete solution is unique for physical models. So the "
+        "'reduction factor per cycle' the property speaks about is a well-defined quantity of "
+        "(grid, model, cycle). NOT proved, only MEASURED (obligation kind 'measured'; no theorem "
+        "stands behind it): the value of that factor and its independence of the grid size - a "
+        "quantitative statement of numerical analysis (h-independent spectral radius) that is out of "
+        "reach of a machine-checked proof here. The measurement follows the property's own "
+        "procedure: reference problems on uniform grids (8^3..64^3, thorough 128^3 and non-cubic "
+        "2^a x 3*2^b x 5*2^c shapes; F/V/W; isotropic and triaxial 1:2:3; frequency and Laplace "
+        "domain; 1..3 smoothing steps), thresholds 1.5x the factor at 16^3 and 1.5x the factors "
+        "measured on the pinned tree (harness/c06_baseline.json), cycles to 1e-6 not growing.",
+   design='§9.10',
+   note=TB % 'c06' + "The decisive quantitative part of this property is a measurement, not a "
+        "theorem (see text); the theorems are executed on the real solver.multigrid in float64 "
+        "(fixed point, source-independent error propagation).",
+   technique='Lean 4: linearity/consistency of the whole cycle by induction over the trace + measured convergence factors (labelled)'),
 }
 
 NA = {
- 'C06': "quantitative numerical analysis (h-independent spectral radius of the MG iteration): no "
-        "Lean theorem within reach; measuring factors is observation, not proof. The regressions it "
-        "worries about are caught by C03/C04/C05.",
 }
 NOT_YET = "check not built yet in this framework (planned, see DESIGN.md §4)"
 
